@@ -16,8 +16,10 @@ import (
 	"runtime"
 	"strconv"
 	"sync"
+	"time"
 
-	td "github.com/go-text/typesetting-utils/opentype"
+	ot "github.com/go-text/typesetting/font/opentype"
+	"github.com/go-text/typesetting/font/opentype/tables"
 	"github.com/go-text/typesetting/di"
 	"github.com/go-text/typesetting/font"
 	"github.com/go-text/typesetting/fontscan"
@@ -36,62 +38,174 @@ type concOp struct {
 }
 
 var concFonts []*font.Font
+var concAxes [][]tables.VariationAxisRecord // per shared font: its variation axes (a fact read from fvar)
+var concOwn [][]rune // per shared font: runes of its own cmap (spread over the cmap), appended to the shaped texts
 
-func loadConcFonts() error {
-	for _, p := range []string{"common/Commissioner-VF.ttf", "common/Raleway-v4020-Regular.otf", "morx/Eight.ttf", "common/Roboto-BoldItalic.ttf", "bitmap/NotoColorEmoji.ttf", "toys/CFF2-VF.otf"} {
-		b, err := td.Files.ReadFile(p)
-		if err != nil {
-			return err
+var concBase = []string{"ot:common/Commissioner-VF.ttf", "ot:common/Raleway-v4020-Regular.otf", "ot:morx/Eight.ttf", "ot:common/Roboto-BoldItalic.ttf", "ot:bitmap/NotoColorEmoji.ttf", "ot:toys/CFF2-VF.otf"}
+
+// concPool groups the corpus files by the kind of shared data their first face carries (a fact read
+// from the table directory): slot 0 gvar, 1 CFF, 2 AAT (morx/kerx), 3 static glyf + GSUB, 4 bitmap/colour, 5 other variable.
+var concPool [6][]corpusFile
+var concByID = map[string]corpusFile{}
+
+func loadConcPool() {
+	tag := func(s string) ot.Tag { return ot.MustNewTag(s) }
+	for _, cf := range corpusFiles() {
+		concByID[cf.ID] = cf
+		lds, err := ot.NewLoaders(bytes.NewReader(cf.Data))
+		if err != nil || len(lds) == 0 {
+			continue
 		}
-		f, err := font.ParseTTF(bytes.NewReader(b))
-		if err != nil {
-			return fmt.Errorf("%s: %v", p, err)
+		ld := lds[0]
+		has := func(s string) bool { return ld.HasTable(tag(s)) }
+		switch {
+		case has("morx") || has("kerx"):
+			concPool[2] = append(concPool[2], cf)
+		case has("gvar"):
+			concPool[0] = append(concPool[0], cf)
+		case has("CFF2") || has("fvar"):
+			concPool[5] = append(concPool[5], cf)
+		case has("CFF "):
+			concPool[1] = append(concPool[1], cf)
+		case has("CBDT") || has("sbix") || has("EBDT") || has("COLR") || has("SVG "):
+			concPool[4] = append(concPool[4], cf)
+		case has("glyf") && has("GSUB"):
+			concPool[3] = append(concPool[3], cf)
 		}
-		concFonts = append(concFonts, f.Font)
 	}
-	return nil
 }
 
-var concTexts = map[int][]rune{1: []rune("Hello fi office world 123"), 2: []rune("abc אבג 123 (مرحبا) 日本")}
+// setConcFont appends one shared font with its facts (own runes, axes); false when it does not parse.
+func addConcFont(cf corpusFile) bool {
+	faces, err, pan := loadFaces(cf.Data)
+	if err != nil || pan != nil || len(faces) == 0 {
+		return false
+	}
+	f := faces[0].Font
+	concFonts = append(concFonts, f)
+	all := ownRunes(font.NewFace(f), 2000)
+	var own []rune
+	step := len(all)/12 + 1
+	for i := 0; i < len(all); i += step {
+		own = append(own, all[i])
+	}
+	concOwn = append(concOwn, own)
+	var axes []tables.VariationAxisRecord
+	if lds, err := ot.NewLoaders(bytes.NewReader(cf.Data)); err == nil && len(lds) > 0 {
+		if raw, err := lds[0].RawTable(ot.MustNewTag("fvar")); err == nil {
+			if fv, _, err := tables.ParseFvar(raw); err == nil {
+				axes = fv.FvarRecords.Axis
+			}
+		}
+	}
+	concAxes = append(concAxes, axes)
+	return true
+}
 
-// runProgram executes one program on private objects over the shared fonts; returns one digest per step
-func runProgram(ops []concOp, shift int) (out []string, status []string) {
-	face := font.NewFace(concFonts[shift%len(concFonts)])
+// loadConcFonts selects the six shared fonts of program set number set: the fixed base fonts for the
+// first set, then one font per pool slot rotating through the corpus (by seed and set number).
+func loadConcFonts(set int, seed int64) ([]string, error) {
+	concFonts, concOwn, concAxes = nil, nil, nil
+	var ids []string
+	for k := 0; k < 6; k++ {
+		id := ""
+		if set > 1 && len(concPool[k]) > 0 {
+			for try := 0; try < len(concPool[k]) && id == ""; try++ {
+				cf := concPool[k][(int(seed)*13+set+try)%len(concPool[k])]
+				if addConcFont(cf) {
+					id = cf.ID
+				}
+			}
+		}
+		if id == "" {
+			if !addConcFont(concByID[concBase[k]]) {
+				return nil, fmt.Errorf("%s does not parse", concBase[k])
+			}
+			id = concBase[k]
+		}
+		ids = append(ids, id)
+	}
+	return ids, nil
+}
+
+var concTexts = map[int][]rune{1: []rune("Hello fi office M\u0300e\u0301 world 123"), 2: []rune("abc אבג 123 (مرحبا) 日本")}
+
+// lazy is a step result whose digest is computed later, by the main goroutine: the goroutines of the
+// concurrent phase must not call fmt / encoding/json / sha1 themselves, because the sync.Pools inside
+// those packages create happens-before edges between the goroutines that hide data races in the
+// library from the race detector.
+type lazy func() string
+
+func guardLazy(f func() lazy) (d lazy, p interface{}) {
+	defer func() {
+		if r := recover(); r != nil {
+			d, p = func() string { return "panic" }, r
+		}
+	}()
+	return f(), nil
+}
+
+var concLoc = [8]string{"y0", "y1", "y2", "y3", "y4", "y5", "y6", "y7"}
+
+// runProgram executes one program on private objects over the shared fonts; returns one (lazy) digest per step
+func runProgram(ops []concOp, shift int) (out []lazy, status []interface{}) {
+	fi := shift % len(concFonts)
+	face := font.NewFace(concFonts[fi])
 	var sh shaping.HarfbuzzShaper
 	var seg shaping.Segmenter
 	fm := fontscan.NewFontMap(log.New(io.Discard, "", 0))
 	fm.AddFace(face, fontscan.Location{File: "x"}, font.Description{Family: "fam", Aspect: font.Aspect{Style: font.StyleNormal, Weight: 400, Stretch: 1}})
 	for _, op := range ops {
-		d, p := guard(func() string {
+		d, p := guardLazy(func() lazy {
 			switch op.Op {
 			case "NewFace":
-				face = font.NewFace(concFonts[(op.F+shift)%len(concFonts)])
-				fm.AddFace(face, fontscan.Location{File: fmt.Sprint("y", op.F)}, font.Description{Family: "fam", Aspect: font.Aspect{Style: font.StyleNormal, Weight: 400, Stretch: 1}})
-				return digestOf(face.Upem())
+				fi = (op.F + shift) % len(concFonts)
+				face = font.NewFace(concFonts[fi])
+				fm.AddFace(face, fontscan.Location{File: concLoc[op.F%8]}, font.Description{Family: "fam", Aspect: font.Aspect{Style: font.StyleNormal, Weight: 400, Stretch: 1}})
+				u := face.Upem()
+				return func() string { return digestOf(u) }
 			case "SetVariations":
-				face.SetVariations([]font.Variation{{Tag: wghtTag, Value: float32(op.W)}})
-				return digestOf(face.Coords())
+				// every axis of the font to one of its ends (W < 400: minimum), wght to W when the font has no fvar
+				vs := []font.Variation{{Tag: wghtTag, Value: float32(op.W)}}
+				for _, ax := range concAxes[fi] {
+					v := ax.Maximum
+					if op.W < 400 {
+						v = ax.Minimum
+					}
+					vs = append(vs, font.Variation{Tag: ax.Tag, Value: float32(v)})
+				}
+				face.SetVariations(vs)
+				co := append([]font.VarCoord(nil), face.Coords()...)
+				return func() string { return digestOf(co) }
 			case "Shape":
-				text := concTexts[op.T]
+				text := append(append([]rune(nil), concTexts[op.T]...), concOwn[fi]...)
 				o := sh.Shape(shaping.Input{Text: text, RunEnd: len(text), Face: face, Size: fixed.I(14), Direction: di.DirectionLTR, Script: language.Latin, Language: "en"})
-				return outputDigest(&o)
+				return func() string { return outputDigest(&o) }
 			case "Extents":
 				e, ok := face.GlyphExtents(font.GID(op.G))
-				return digestOf(e, ok, face.HorizontalAdvance(font.GID(op.G)), face.GlyphName(font.GID(op.G)))
+				adv, name := face.HorizontalAdvance(font.GID(op.G)), face.GlyphName(font.GID(op.G))
+				return func() string { return digestOf(e, ok, adv, name) }
 			case "Data":
-				return digestOf(face.GlyphData(font.GID(op.G)))
+				gd := face.GlyphData(font.GID(op.G))
+				// JSON, not fmt: bitmap and SVG glyph data hold a pointer to their outline, which fmt prints as an address
+				return func() string {
+					b, err := json.Marshal(gd)
+					return digestOf(string(b), err)
+				}
 			case "Split":
 				text := concTexts[op.T]
-				ins := seg.Split(shaping.Input{Text: text, RunEnd: len(text), Size: fixed.I(12), Language: "en", Direction: di.DirectionLTR}, fm)
-				var b bytes.Buffer
-				for _, in := range ins {
-					fmt.Fprintf(&b, "%d-%d,%v,%v;", in.RunStart, in.RunEnd, in.Direction, in.Script)
+				ins := append([]shaping.Input(nil), seg.Split(shaping.Input{Text: text, RunEnd: len(text), Size: fixed.I(12), Language: "en", Direction: di.DirectionLTR}, fm)...)
+				return func() string {
+					var b bytes.Buffer
+					for _, in := range ins {
+						fmt.Fprintf(&b, "%d-%d,%v,%v;", in.RunStart, in.RunEnd, in.Direction, in.Script)
+					}
+					return digestOf(b.String())
 				}
-				return digestOf(b.String())
 			default:
 				fm.SetQuery(fontscan.Query{Families: []string{"fam"}})
 				f := fm.ResolveFace(rune(op.R))
-				return digestOf(f != nil)
+				return func() string { return digestOf(f != nil) }
 			}
 		})
 		out = append(out, d)
@@ -100,14 +214,75 @@ func runProgram(ops []concOp, shift int) (out []string, status []string) {
 	return
 }
 
+func forceAll(ls []lazy, ps []interface{}) (out []string, st []string) {
+	for i, l := range ls {
+		out = append(out, l())
+		if ps[i] == nil {
+			st = append(st, "ok")
+		} else {
+			st = append(st, "panic: "+fmt.Sprint(ps[i]))
+		}
+	}
+	return
+}
+
+// runSet runs the reference (each goroutine's program alone) and the concurrent phase of one set and
+// records the Set / Step events. progOf gives goroutine g's program.
+func runSet(enc *json.Encoder, set, n int, progs [][]concOp, progOf func(g int) []concOp, ids []string) {
+	ref := make([][]string, n)
+	for g := 0; g < n; g++ {
+		ref[g], _ = forceAll(runProgram(progOf(g), g))
+	}
+	// concurrent, free running (no hand-offs that would order the goroutines; results are digested afterwards)
+	gotL := make([][]lazy, n)
+	stL := make([][]interface{}, n)
+	var wg sync.WaitGroup
+	start := make(chan struct{})
+	for g := 0; g < n; g++ {
+		wg.Add(1)
+		go func(g int) {
+			defer wg.Done()
+			<-start
+			if g%3 == 0 {
+				runtime.Gosched()
+			}
+			gotL[g], stL[g] = runProgram(progOf(g), g)
+		}(g)
+	}
+	close(start)
+	done := make(chan struct{})
+	go func() { wg.Wait(); close(done) }()
+	enc.Encode(map[string]interface{}{"ev": "Set", "set": set, "programs": progs, "goroutines": n, "fonts": ids})
+	select {
+	case <-done:
+	case <-time.After(concHangAfter):
+		// every program finished when run alone, so this is a hang of the concurrent run only; spinning
+		// goroutines cannot be stopped: record it and end the process (the rest of the plan is not run)
+		enc.Encode(map[string]interface{}{"ev": "Hang", "set": set, "fonts": ids, "after_s": int(concHangAfter / time.Second)})
+		concFlush()
+		fmt.Printf("{\"sets\": %d, \"goroutines\": %d, \"hang\": true}\n", set, n)
+		os.Exit(0)
+	}
+	for g := 0; g < n; g++ {
+		got, st := forceAll(gotL[g], stL[g])
+		for i := range got {
+			enc.Encode(map[string]interface{}{"ev": "Step", "set": set, "g": g, "i": i, "d": got[i], "sd": ref[g][i], "p": st[i]})
+		}
+	}
+}
+
+const concHangAfter = 90 * time.Second
+
+var concFlush = func() {}
+
 func concMain(args []string) error {
 	// conc run <programsets.ndjson> <goroutines> <out.ndjson>
-	if len(args) < 4 || args[0] != "run" {
-		return fmt.Errorf("conc: usage: conc run <sets> <goroutines> <out>")
+	// conc sweep <program.json> <goroutines> <out.ndjson> <one file in k>
+	if len(args) < 4 || (args[0] != "run" && args[0] != "sweep") {
+		return fmt.Errorf("conc: usage: conc run|sweep <sets> <goroutines> <out> [k]")
 	}
-	if err := loadConcFonts(); err != nil {
-		return err
-	}
+	loadConcPool()
+	seed := seedFromEnv()
 	n, _ := strconv.Atoi(args[2])
 	f, err := os.Open(args[1])
 	if err != nil {
@@ -121,45 +296,57 @@ func concMain(args []string) error {
 	defer of.Close()
 	w := bufio.NewWriter(of)
 	defer w.Flush()
+	concFlush = func() { w.Flush() }
 	enc := json.NewEncoder(w)
 	sc := bufio.NewScanner(f)
 	sc.Buffer(make([]byte, 1<<20), 1<<24)
 	sets := 0
+	if args[0] == "sweep" {
+		k := 1
+		if len(args) > 4 {
+			k, _ = strconv.Atoi(args[4])
+		}
+		var prog []concOp
+		if !sc.Scan() {
+			return fmt.Errorf("conc sweep: empty program file")
+		}
+		if err := json.Unmarshal(sc.Bytes(), &prog); err != nil {
+			return err
+		}
+		for fi, cf := range corpusFiles() {
+			// every AAT / variable font, one in k of the others (rotating with the seed)
+			special := false
+			for _, slot := range []int{0, 2, 5} {
+				for _, x := range concPool[slot] {
+					if x.ID == cf.ID {
+						special = true
+					}
+				}
+			}
+			if !special && k > 1 && (fi+int(seed))%k != 0 {
+				continue
+			}
+			concFonts, concOwn, concAxes = nil, nil, nil
+			if !addConcFont(cf) {
+				continue
+			}
+			sets++
+			runSet(enc, sets, n, [][]concOp{prog}, func(int) []concOp { return prog }, []string{cf.ID})
+		}
+		fmt.Printf("{\"sets\": %d, \"goroutines\": %d}\n", sets, n)
+		return nil
+	}
 	for sc.Scan() {
 		var progs [][]concOp
 		if err := json.Unmarshal(sc.Bytes(), &progs); err != nil {
 			return err
 		}
 		sets++
-		// reference: every goroutine's program alone
-		ref := make([][]string, n)
-		for g := 0; g < n; g++ {
-			ref[g], _ = runProgram(progs[g%len(progs)], g)
+		ids, err := loadConcFonts(sets, seed)
+		if err != nil {
+			return err
 		}
-		// concurrent, free running (no hand-offs that would order the goroutines)
-		got := make([][]string, n)
-		st := make([][]string, n)
-		var wg sync.WaitGroup
-		start := make(chan struct{})
-		for g := 0; g < n; g++ {
-			wg.Add(1)
-			go func(g int) {
-				defer wg.Done()
-				<-start
-				if g%3 == 0 {
-					runtime.Gosched()
-				}
-				got[g], st[g] = runProgram(progs[g%len(progs)], g)
-			}(g)
-		}
-		close(start)
-		wg.Wait()
-		enc.Encode(map[string]interface{}{"ev": "Set", "set": sets, "programs": progs, "goroutines": n})
-		for g := 0; g < n; g++ {
-			for i := range got[g] {
-				enc.Encode(map[string]interface{}{"ev": "Step", "set": sets, "g": g, "i": i, "d": got[g][i], "sd": ref[g][i], "p": st[g][i]})
-			}
-		}
+		runSet(enc, sets, n, progs, func(g int) []concOp { return progs[(g/len(concFonts))%len(progs)] }, ids)
 	}
 	fmt.Printf("{\"sets\": %d, \"goroutines\": %d}\n", sets, n)
 	return nil
